@@ -173,6 +173,7 @@ CHECKS = {
         level_text="The server's tail reader is started on a harness-owned file; once /proc shows its descriptor positioned at the end of the pre-existing content, the harness appends generated lines through a generated sequence of write() calls and delays while a generated consumer takes lines from the delivery queue. With an ample queue the delivered lines must equal the complete appended (selected) lines byte for byte, once, in order, with nothing from before the follow and a partial line only after its completion; with a tiny queue the delivered lines must be an in-order subsequence and the first line after each gap must report a transmission percentage below 100.",
         level_note="Pre-existing content ends with a newline (what 'the line' is otherwise is not defined). Truncation/rotation is outside the statement. Schedules of writer, poller and consumer are sampled through generated delays, not enumerated.",
         tests=[
-            dict(name="TestC04Follow", quick=dict(checks=10, shards=10, timeout=900), thorough=dict(checks=250, shards=12, timeout=3400)),
+            dict(name="TestC04Follow", quick=dict(checks=10, shards=10, timeout=900), thorough=dict(checks=250, shards=10, timeout=3400)),
+            dict(name="TestC04SharedQueue", quick=dict(checks=25, shards=6, timeout=900), thorough=dict(checks=600, shards=6, timeout=3400)),
         ]),
 }
